@@ -221,7 +221,8 @@ def splice_fn(out: Out, it: Item, file: str, fid: str, *, ret: str = 'res',
               opaque: List[dict] = (),
               foreach: List[dict] = (),
               sink: str = 'writer',
-              imported: Optional[str] = None):
+              imported: Optional[str] = None,
+              closures: List[dict] = ()):
     """emit fn item `it` with contract clauses spliced between its signature and its body.
     Executable tokens of the body are emitted unchanged and in order."""
     toks = it.toks
@@ -327,6 +328,20 @@ def splice_fn(out: Out, it: Item, file: str, fid: str, *, ret: str = 'res',
         ins.setdefault(ob, []).extend(lst)
 
     body_a, body_b = toks[it.open].start, toks[it.last].end
+    # ---- closure postconditions: `|p| EXPR` becomes `|p| -> (b: T) ensures E { EXPR }` (additive; Verus infers
+    # nothing about a closure's result).  The anchor is the whole closure text.
+    inserts = list(inserts)
+    for d in (() if imported else closures):
+        pat = d['at']
+        k2 = pat.index('|', pat.index('|') + 1) + 1
+        occs = range(it.src[body_a:body_b].count(pat)) if d.get('all') else [d.get('occurrence')]
+        for oc in occs:
+            ins_a = {'at': pat, 'offset': k2, 'inline': True, 'text': f" -> ({d.get('ret', 'b: bool')}) ensures {d['ensures']} {{"}
+            ins_b = {'at': pat, 'offset': len(pat), 'inline': True, 'text': ' }'}
+            if oc is not None:
+                ins_a['occurrence'] = oc
+                ins_b['occurrence'] = oc
+            inserts += [ins_a, ins_b]
     for d in inserts:
         pat = d['at']
         occ = [m.start() for m in re.finditer(re.escape(pat), it.src[body_a:body_b])]
